@@ -926,6 +926,10 @@ func (tb *TB) slice(x *ssa.Slice) *Term {
 	if hi != nil {
 		h = tb.Term(hi)
 	}
+	// x[:][lo:hi] is x[lo:hi]
+	if base.Op == "Slice" && len(base.Args) == 3 && base.Args[1] == nil && base.Args[2] == nil && x.Max == nil {
+		base = base.Args[0]
+	}
 	t := mk("Slice", "", x, base, l, h)
 	if x.Max != nil {
 		t.Args = append(t.Args, tb.Term(x.Max))
